@@ -168,6 +168,47 @@ def run_ranges(job, R):
     R.sample = {'range': 'T8s+', 'expands_to': ['T8s', 'T9s'], 'order': job['order']}
 
 
+def run_ranges_interleaved(job, R):
+    """the same notation under different rank orders in one process, alternating: a result must depend on the arguments of the
+    call only (no state carried over from earlier calls)"""
+    from pokerkit.analysis import parse_range
+    from pokerkit.utilities import RankOrder
+    orders = [('STANDARD', STD), ('REGULAR', 'A23456789TJQK'), ('SHORT_DECK_HOLDEM', SHORT), ('STANDARD', STD), ('REGULAR', 'A23456789TJQK')]
+    ranks = SHORT          # ranks valid in all three orders
+    toks = []
+    for r0 in ranks:
+        for r1 in ranks:
+            for suf in ('', 's', 'o'):
+                toks.append((r0, r1, suf, '+'))
+            for r2 in 'T9A':
+                for r3 in 'T9A':
+                    toks.append((r0, r1, '', '-', r2, r3))
+    for tk in toks:
+        for name, order in orders:
+            ro = getattr(RankOrder, name)
+            if tk[3] == '+':
+                r0, r1, suf, _ = tk
+                text = r0 + r1 + suf + '+'
+                exp = x_plus(r0, r1, suf, order)
+            else:
+                r0, r1, suf, _, r2, r3 = tk
+                text = f'{r0}{r1}-{r2}{r3}'
+                exp = x_interval(r0, r1, r2, r3, '', order)
+                if exp is None:
+                    continue
+            R.evals += 1
+            try:
+                got = texts(parse_range(text, rank_order=ro))
+            except Exception as exc:
+                R.v('range-raised', f'{text} under {name}: {type(exc).__name__}: {exc}', {'range': text, 'order': name}, 'interleaved')
+                continue
+            R.classes.add(('range-x', name, len(got)))
+            if got != exp:
+                R.v('range-depends-on-earlier-calls', f'{text} under {name} (after calls with other rank orders): {len(got)} combinations, '
+                    f'the hands it abbreviates give {len(exp)}', {'range': text, 'order': name}, 'interleaved')
+    R.sample = {'range': 'JJ+', 'orders': [n for n, _ in orders]}
+
+
 def run_separators(job, R):
     from pokerkit.analysis import parse_range
     toks = ['AA', 'AKs', 'AKo', 'T9', '22+', 'A2s+', 'KTo+', '33-66', 'T9s-QJs', '76o-98o', 'AsKs', '2c2d', 'JJ', 'Q2s', '98']
@@ -583,7 +624,7 @@ def run_icm(job, R):
 def jobs(tier, seed):
     th = tier == 'thorough'
     out = [{'family': 'ranges', 'kind': 'ranges', 'order': 'STANDARD'}, {'family': 'ranges', 'kind': 'ranges', 'order': 'SHORT_DECK_HOLDEM'},
-           {'family': 'range-separators', 'kind': 'separators'}, {'family': 'equities-ranges-and-hand-strength', 'kind': 'req'}]
+           {'family': 'range-separators', 'kind': 'separators'}, {'family': 'ranges-interleaved-rank-orders', 'kind': 'ranges-interleaved'}, {'family': 'equities-ranges-and-hand-strength', 'kind': 'req'}]
     for fk, (tn, deck, h, b, ns) in FAMILIES.items():
         if fk in THOROUGH_ONLY and not th:
             continue
@@ -605,7 +646,7 @@ def jobs(tier, seed):
     return out
 
 
-RUN = {'ranges': run_ranges, 'separators': run_separators, 'equity': run_equity, 'req': run_ranges_equity, 'icm': run_icm}
+RUN = {'ranges-interleaved': run_ranges_interleaved, 'ranges': run_ranges, 'separators': run_separators, 'equity': run_equity, 'req': run_ranges_equity, 'icm': run_icm}
 
 
 def run_job(job):
